@@ -232,4 +232,22 @@ example : RoleNames.scenario (List.replicate 32 0x41) = ["ok", "PermissionDenied
 example : (RoleNames.scenario (List.replicate 33 0x41)).head? = some "ExceedMaxLengthLimit" := by decide
 example : (RoleNames.scenario [0x41, 0, 0x42]).head? = some "InvalidArgument" := by decide
 
+-- `role_usable_after_accept` / `role_rejected_unchanged` instantiated on the empty role table
+example : ∃ b s1, toBytes 32 (List.replicate 32 0x41) = .ok b ∧ fromBytes 32 b = .ok (List.replicate 32 0x41) ∧
+    RoleNames.enableNamed (Roles.St.empty : Roles.St (List Nat) Nat) (List.replicate 32 0x41) = .ok s1 := by
+  obtain ⟨b, s1, h1, h2, h3, _⟩ := role_usable_after_accept (A := Nat) Roles.St.empty (List.replicate 32 0x41) 1
+    (by decide) rfl (by decide) (by decide) (by decide)
+  exact ⟨b, s1, h1, h2, h3⟩
+example : RoleNames.enableNamed (Roles.St.empty : Roles.St (List Nat) Nat) (List.replicate 33 0x41) = .error (.name .exceedMax) ∨
+    RoleNames.enableNamed (Roles.St.empty : Roles.St (List Nat) Nat) (List.replicate 33 0x41) = .error (.name .invalidArgument) :=
+  role_rejected_unchanged Roles.St.empty (List.replicate 33 0x41) rfl (Or.inl (by decide))
+-- `roundtrip`, `toBytes_length`, `fromBytes_spec`, `toBytes_injective` on a concrete multi-byte name
+example : fromBytes 8 [0xc3, 0xa9, 0x41, 0, 0, 0, 0, 0] = .ok [0xc3, 0xa9, 0x41] :=
+  roundtrip (n := [0xc3, 0xa9, 0x41]) (by decide) (by decide)
+example : ([0xc3, 0xa9, 0x41] : List Nat) = [0xc3, 0xa9, 0x41, 0, 0, 0, 0, 0].take 3 ∧ (0 : Nat) ∉ [0xc3, 0xa9, 0x41] :=
+  let h := fromBytes_spec (L := 8) (b := [0xc3, 0xa9, 0x41, 0, 0, 0, 0, 0]) (s := [0xc3, 0xa9, 0x41]) rfl (by decide)
+  ⟨h.1, h.2.1⟩
+example : RoleNames.wrappedRoundtrip 64 [0x42, 0x54, 0x43] = .ok [0x42, 0x54, 0x43] :=
+  (wrapped_roundtrip 64 [0x42, 0x54, 0x43] (by decide)).1 (by decide)
+
 end Gmx.C35
